@@ -15,4 +15,5 @@ for mp in sorted(glob.glob(os.path.join(ROOT, "seeded", "*", "meta.json"))):
 print("| seed | property | confirmed (tests pass, demo fails) | detected by (quick tier) | checks run | first finding key of the property's own check |")
 print("|---|---|---|---|---|---|")
 for r in rows:
-    print(f"| {r[0]} | {r[1]} | {r[3]} | {r[4]} | {r[5]} | `{r[6]}` |")
+    key = r[6].replace("|", "\\|")
+    print(f"| {r[0]} | {r[1]} | {r[3]} | {r[4]} | {r[5]} | `{key}` |")
